@@ -7,7 +7,8 @@
               Authorization / X-Tahoe-Authorization headers, arguments), the status,
               the abstracted body, whether the raw body contained stored share bytes
               (hasdata), whether the digest of the whole storage directory is the same
-              before and after (same), the share files of r.si read back (obs).
+              before and after (same), the share files of r.si read back (obs; left out when no file
+              changed: then the Spec must not expect an observable change either).
               Optional d = [res, obs]: the same operation executed directly on a twin
               StorageServer (C31): its result and the twin's share files.
      Advance  virtual time passes on both servers (obsall: every storage index read back).
@@ -37,6 +38,7 @@ NormObsMut(o) == [sh \in DOMAIN o |-> [present |-> o[sh].present, data |-> o[sh]
                                          leases |-> ToSet(o[sh].leases)]]
 ObsOK(T, si, o) == IF si \in DOMAIN T.imm THEN ObsImm(T, si) = NormObsImm(o)
                    ELSE IF si \in DOMAIN T.mut THEN ObsMut(T, si) = NormObsMut(o) ELSE TRUE
+ObsProj(T, si) == IF si \in DOMAIN T.imm THEN ObsImm(T, si) ELSE IF si \in DOMAIN T.mut THEN ObsMut(T, si) ELSE <<>>
 ObsAllOK(T, oa) == \A si \in DOMAIN oa : ObsOK(T, si, oa[si])
 
 (* ---- JSON -> the values StorageHTTP.tla talks about ---- *)
@@ -85,16 +87,20 @@ VReq(e) ==
       hasobs == "obs" \in DOMAIN e
   IN IF ~statusok THEN V(StatusClause(r, stage, want, e.status), H)
      ELSE IF ~SwissnumPresented(r.auth) /\ (e.hasdata \/ b # NoBody) THEN V("C30_NoAuthNoData", H)
-     ELSE IF o.next = H /\ ~e.same THEN V(EffectClause(r, stage, want), H)
+     \* a rejected request leaves every file of the storage directory byte-identical (an accepted one that is a
+     \* no-op on the abstract state may still rewrite a container: judged through obs below)
+     ELSE IF o.next = H /\ ~e.same /\ (stage # "business" \/ want >= 300) THEN V(EffectClause(r, stage, want), H)
      ELSE IF r.ep = "alloc" /\ b.k = "alloc" /\ ~AllocChoiceOK(H, r, alloc) THEN V("C31_http_alloc_choice", H)
      ELSE IF b # o.out.body THEN V(IF stage = "business" THEN "C31_http_body" ELSE "C30_rejection_has_body", H)
      ELSE IF hasobs /\ ~ObsOK(o.next.S, r.si, e.obs) THEN V(IF o.next = H THEN EffectClause(r, stage, want) ELSE "C31_http_state", H)
+     ELSE IF e.same /\ ObsProj(o.next.S, r.si) # ObsProj(H.S, r.si) THEN V("C31_http_state_not_changed", H)
      ELSE IF "d" \in DOMAIN e THEN
           (IF ~Comparable(H, r) THEN V("harness_twin_not_comparable", H)
            ELSE IF NormD(r, e.d.res) # DirectView(H, r) THEN V("C31_direct_result", H)
            ELSE IF ClientView(r, [status |-> e.status, body |-> b]) # NormD(r, e.d.res) THEN V("C31_agree_result", H)
            ELSE IF r.ep = "alloc" /\ ToSet(e.d.res.allocated) # alloc THEN V("C31_agree_allocated", H)
-           ELSE IF ~ObsOK(o.next.S, r.si, e.d.obs) THEN V("C31_agree_state", H)
+           ELSE IF "obs" \in DOMAIN e.d /\ ~ObsOK(o.next.S, r.si, e.d.obs) THEN V("C31_agree_state", H)
+           ELSE IF e.d.same /\ ObsProj(o.next.S, r.si) # ObsProj(H.S, r.si) THEN V("C31_agree_state_not_changed", H)
            ELSE V("", o.next))
      ELSE V("", o.next)
 
